@@ -75,6 +75,12 @@ func (timeoutError) Timeout() bool     { return true }
 func (timeoutError) Temporary() bool   { return true }
 func (timeoutError) Is(err error) bool { return err == os.ErrDeadlineExceeded }
 
+type tempError struct{}
+
+func (tempError) Error() string   { return "too many open files" }
+func (tempError) Timeout() bool   { return false }
+func (tempError) Temporary() bool { return true }
+
 func opErr(op string, err error) error {
 	return &net.OpError{Op: op, Net: "vnet", Addr: addr("vnet"), Err: err}
 }
@@ -350,6 +356,9 @@ type Listener struct {
 	Waiting  int             // threads currently parked in Accept
 	Hook     func(ev string) // called when an operation executes: accept-conn, accept-timeout, accept-closed, setdl, close
 	Refused  int
+	// TempFail Accept calls that find a connection waiting fail with a temporary (not timeout) error instead
+	TempFail   int
+	TempFailed int
 }
 
 func NewListener(name string) *Listener { return &Listener{Name: name} }
@@ -380,6 +389,14 @@ func (l *Listener) Accept() (net.Conn, error) {
 	case l.expired:
 		l.hook("accept-timeout")
 		return nil, opErr("accept", timeoutError{})
+	}
+	if l.TempFail > 0 {
+		// the environment's transient accept failure (EMFILE and the like) at the moment a client connects: the
+		// connection stays queued
+		l.TempFail--
+		l.TempFailed++
+		l.hook("accept-temperr")
+		return nil, opErr("accept", tempError{})
 	}
 	l.hook("accept-conn")
 	vsched.EnvProgress()
